@@ -626,6 +626,12 @@ Definition hr_ok (cf : config) : Prop :=
   forall d h, cf_hr cf d (cf_tc cf) = Some h ->
     (0 <= d -> 0 <= h /\ Z.of_nat (cf_tc cf) * h <= d) /\ (d <= 0 -> h <= 0).
 
+(* the same, asked only of the operands that arise (cap minus the load of a part, loads being
+   between 0 and the total weight), and up to a total over-allocation of [slack] per part *)
+Definition hr_ok_on (cf : config) (slack : Z) : Prop :=
+  forall d h, cf_cap cf - sumZ (cf_vw cf) <= d <= cf_cap cf -> cf_hr cf d (cf_tc cf) = Some h ->
+    (0 <= d -> 0 <= h /\ Z.of_nat (cf_tc cf) * h <= d + slack) /\ (d <= 0 -> h <= 0).
+
 (* an undirected weighted multigraph on the vertices 0..n-1 *)
 Record graph_ok (g : graph) : Prop := {
   go_nbrs : forall v u, In u (nbrs g v) -> In v (nbrs g u);
